@@ -91,7 +91,18 @@ func run(e *core.Env) {
 	friendSet := map[netip.Addr]bool{}
 	rStore := node.BaseStore(R)
 	haveSone := false
-	switch tp.Pick(5, 2, 2, 2) {
+	soneName := "sone"
+	switch tp.Pick(5, 2, 2, 2, 2) {
+	case 4:
+		// two friends whose names differ only in case (legal: names are kept as written): a
+		// service "for" one of them is for that router, not for its namesake
+		soneName = "Sone"
+		friendSet[S1.IP], friendSet[S3.IP], haveSone = true, true, true
+		rStore.FriendConfigs = []config.FriendConfig{{Name: "Sone", IP: S1.IP.String()}, {Name: "sone", IP: S3.IP.String()}}
+		if tp.Chance(1, 2) {
+			rStore.FriendConfigs[0], rStore.FriendConfigs[1] = rStore.FriendConfigs[1], rStore.FriendConfigs[0]
+		}
+		e.Probe("friends_whose_names_differ_only_in_case")
 	case 0:
 		friendSet[S1.IP], friendSet[extraFriend.IP], haveSone = true, true, true
 		rStore.FriendConfigs = []config.FriendConfig{{Name: "sone", IP: S1.IP.String()}, {Name: "far", IP: extraFriend.IP.String()}}
@@ -169,7 +180,7 @@ func run(e *core.Env) {
 			sc.For = []string{S2.IP.String()}
 			sm.forIPs[S2.IP] = true
 			if haveSone && tp.Chance(1, 2) {
-				sc.For = append(sc.For, "sone")
+				sc.For = append(sc.For, soneName)
 				sm.forIPs[S1.IP] = true
 			}
 		default:
